@@ -416,9 +416,18 @@ def check(report: Report, repo: Repo) -> None:
     report.floor("scale primitive applications evaluated", n_sites, 150)
 
 
+def _literal(c: Any, p: bool) -> Tuple[Any, bool]:
+    """Strip negations: (not X, p) == (X, not p); `is not` / `!=` likewise."""
+    while isinstance(c, T) and c.op == "not" and len(c.args) == 1:
+        c, p = c.args[0], not p
+    return c, p
+
+
 def _compatible(g1: Tuple[Tuple[Any, bool], ...], g2: Tuple[Tuple[Any, bool], ...]) -> bool:
     for c1, p1 in g1:
+        c1, p1 = _literal(c1, p1)
         for c2, p2 in g2:
+            c2, p2 = _literal(c2, p2)
             try:
                 if c1 == c2 and p1 != p2:
                     return False
